@@ -388,7 +388,13 @@ pub fn judge(inv: &Invocation, known_cr: &Option<String>, acc: &mut Acc) {
                 format!(
                     "daacfind ({}) patterns {:?} flags[n={} h={} color={} via_file={} split_f_p={}] {}: {strict}",
                     inv.profile,
-                    inv.patterns.iter().map(|p| String::from_utf8_lossy(p).to_string()).collect::<Vec<_>>(),
+                    {
+                        let mut v: Vec<String> = inv.patterns.iter().take(6).map(|p| String::from_utf8_lossy(p).chars().take(24).collect()).collect();
+                        if inv.patterns.len() > 6 {
+                            v.push(format!("... {} patterns in all", inv.patterns.len()));
+                        }
+                        v
+                    },
                     inv.line_number, inv.no_filename, inv.color, inv.via_file, inv.split, inv.delivery.name()
                 ),
                 c,
